@@ -14,6 +14,7 @@ import (
 	"strings"
 
 	"github.com/tonistiigi/fsutil"
+	"github.com/tonistiigi/fsutil/types"
 	"verif/harness/disk"
 	"verif/harness/hstream"
 	"verif/harness/model"
@@ -30,6 +31,8 @@ type tarInput struct {
 	Twice bool `json:"twice,omitempty"`
 	// Bare: an unfiltered view is exported as NewFS returns it (no WithHardlinkReset around it)
 	Bare bool `json:"bare,omitempty"`
+	// Mounts: the view is a SubDirFS that mounts the (optionally filtered) tree once under each of these names
+	Mounts []string `json:"mounts,omitempty"`
 }
 
 func parseOctal(b []byte) (int64, bool) {
@@ -143,8 +146,26 @@ func runTar(c *Ctx, caseNo int, in tarInput) (vt.Ev, error) {
 			return nil, nil
 		}
 	}
+	if len(in.Mounts) > 0 {
+		var dirs []fsutil.Dir
+		for _, m := range in.Mounts {
+			dirs = append(dirs, fsutil.Dir{Stat: &types.Stat{Path: m, Mode: uint32(os.ModeDir | 0755), ModTime: 1400000000000000000}, FS: f})
+		}
+		f, err = fsutil.SubDirFS(dirs)
+		if err != nil {
+			return nil, err
+		}
+	}
 	if !(in.Bare && len(in.Exc)+len(in.Inc) == 0) {
 		f = fsutil.WithHardlinkReset(f)
+	}
+	// where the bytes of a view path live on disk (the ground truth for member payloads: not the view's own Open)
+	diskPath := func(p string) string {
+		if len(in.Mounts) > 0 {
+			_, rest, _ := strings.Cut(filepath.ToSlash(p), "/")
+			return filepath.Join(src, rest)
+		}
+		return filepath.Join(src, p)
 	}
 	// the view: what the walk of this FS reports, with the bytes its Open yields
 	var view []vt.Ev
@@ -165,12 +186,10 @@ func runTar(c *Ctx, caseNo int, in tarInput) (vt.Ev, error) {
 		if os.FileMode(st.Mode)&os.ModeSymlink == 0 {
 			ev["lnb"] = []int{}
 		}
-		ev["mtsec"] = int(st.ModTime / 1e9)
+		ev["mtsec"] = int(floorSec(st.ModTime))
 		ev["c"] = ""
 		if os.FileMode(st.Mode)&os.ModeType == 0 {
-			if rc, err := f.Open(p); err == nil {
-				b, _ := io.ReadAll(rc)
-				rc.Close()
+			if b, err := os.ReadFile(diskPath(p)); err == nil {
 				ev["c"] = model.ContentID(b)
 			}
 		}
@@ -235,7 +254,7 @@ func runTar(c *Ctx, caseNo int, in tarInput) (vt.Ev, error) {
 	}
 	xev := extracted.Ev()
 	for i := range xev {
-		xev[i]["mtsec"] = int(extracted[i].Mtime / 1e9)
+		xev[i]["mtsec"] = int(floorSec(extracted[i].Mtime))
 	}
 	if view == nil {
 		view = []vt.Ev{}
@@ -260,6 +279,15 @@ func runTar(c *Ctx, caseNo int, in tarInput) (vt.Ev, error) {
 		ev["err"] = trunc(terr.Error())
 	}
 	return ev, nil
+}
+
+// floorSec: whole seconds of a nanosecond timestamp, rounded towards minus infinity (times before the epoch)
+func floorSec(ns int64) int64 {
+	s := ns / 1e9
+	if ns%1e9 < 0 {
+		s--
+	}
+	return s
 }
 
 // failingWriter accepts left bytes and fails from then on.
@@ -302,10 +330,40 @@ func Tar(c *Ctx) error {
 	}
 	c.Stats.Rule = "one case = WriteTar over the view of a materialised tree (optionally filtered), parsed with archive/tar and a strict block walk and extracted with GNU tar; non-trivial = the view has a hard-link group or a multi-chunk file or a name longer than 100 bytes; distinct by (tree, filter)"
 	o := genOpts{MaxEntries: 30, Special: true, Xattrs: true, Links: true, BigFiles: true, LongNames: true}
-	for i := 0; i < n; i++ {
-		t := RandomTree(c.Rand, o)
-		in := tarInput{Tree: t, Twice: i%2 == 0, Bare: i%4 < 2}
-		switch c.Rand.Intn(5) {
+	// views assembled from several mounted trees, with mount names that are prefixes of one another
+	var fixed []tarInput
+	{
+		mk := func(p, data string) model.Entry {
+			return model.Entry{Path: p, Type: "file", Perm: 0644, Mtime: uniqueMtime(), Data: []byte(data), Size: int64(len(data)), Content: model.ContentID([]byte(data))}
+		}
+		dr := func(p string) model.Entry { return model.Entry{Path: p, Type: "dir", Perm: 0755, Mtime: uniqueMtime()} }
+		t1 := model.Tree{dr("b"), mk("b/x", "AAAA"), mk("x", "BBBB"), mk("y", "yy")}
+		t1.Sort()
+		for _, mounts := range [][]string{{"a", "ab"}, {"ab", "a"}, {"m"}, {"a", "a-b", "ab"}} {
+			fixed = append(fixed, tarInput{Tree: t1, Mounts: mounts}, tarInput{Tree: t1, Mounts: mounts, Bare: true})
+		}
+	}
+	for i := 0; i < n+len(fixed); i++ {
+		var in tarInput
+		if i < len(fixed) {
+			in = fixed[i]
+		} else {
+			in = tarInput{Tree: RandomTree(c.Rand, o), Twice: i%2 == 0, Bare: i%4 < 2}
+			if i%9 == 4 {
+				in.Mounts = [][]string{{"a", "ab"}, {"m"}, {"b", "a", "a0"}}[c.Rand.Intn(3)]
+				// (no fifos below mounts: a view that routes a path to the wrong mount must fail or deliver wrong bytes, not
+				// block the driver in open(2) of a fifo)
+				var keep model.Tree
+				for _, e := range in.Tree {
+					if e.Type != "fifo" {
+						keep = append(keep, e)
+					}
+				}
+				in.Tree = keep
+			}
+		}
+		t := in.Tree
+		switch c.Rand.Intn(5) + 5*b2i(i < len(fixed)) {
 		case 0:
 			in.Exc = []string{[]string{"a", "a*", "*/b", "**/a0"}[c.Rand.Intn(4)]}
 		case 1:
@@ -341,4 +399,11 @@ func pathsOfShort(t model.Tree) []string {
 		}
 	}
 	return out
+}
+
+func b2i(b bool) int {
+	if b {
+		return 1
+	}
+	return 0
 }
